@@ -16,6 +16,10 @@ struct Cx {
     out: Ndjson,
 }
 
+/// lengths every byte-string argument of every entry point is driven with (besides random ones):
+/// empty, 1, around the 32/64-byte values of the protocol and around the Blake2b block size
+const EDGE_LENS: [usize; 10] = [0, 1, 31, 32, 33, 64, 127, 128, 129, 256];
+
 fn one_shot(bits: u64, x: &[u8]) -> Vec<u8> {
     match bits {
         160 => Hasher::<160>::hash(x).to_vec(),
@@ -126,7 +130,7 @@ impl Cx {
     }
     fn input_of_len(&mut self, max: u64) -> Vec<u8> {
         let n = match self.rng.below(8) {
-            0 => *self.rng.pick(&[0u64, 1, 63, 64, 127, 128, 129, 255, 256, 257, 1023, 1024]),
+            0 => *self.rng.pick(&[0u64, 1, 31, 32, 33, 63, 64, 65, 127, 128, 129, 255, 256, 257, 1023, 1024]),
             1 => max,
             2 | 3 => self.rng.below(max + 1),
             _ => self.rng.below(300),
@@ -152,10 +156,10 @@ impl Cx {
             }
         }
     }
-    fn split_case(&mut self, max: u64) {
+    fn split_case(&mut self, max: u64, idx: usize) {
         self.reset();
         let bits = self.bits();
-        let x = self.input_of_len(max);
+        let x = if idx < EDGE_LENS.len() { self.rng.bytes(EDGE_LENS[idx].min(max as usize)) } else { self.input_of_len(max) };
         // half of the cases let a streaming hasher define H and the one-shot agree afterwards
         if self.rng.bool() {
             self.plain(bits, &x);
@@ -168,7 +172,8 @@ impl Cx {
     fn tagged_case(&mut self, tag: u8) {
         self.reset();
         let bits = self.bits();
-        let b = self.input_of_len(200);
+        // tags 0..9 (and every 16th after) take the edge lengths in turn, the others random lengths
+        let b = if (tag as usize) % 16 < EDGE_LENS.len() { self.rng.bytes(EDGE_LENS[(tag as usize) % 16]) } else { self.input_of_len(200) };
         let mut pre = vec![tag];
         pre.extend_from_slice(&b);
         self.plain(bits, &pre);
@@ -209,14 +214,15 @@ impl Cx {
             _ => { let mut h = [0u8; 32]; self.rng.fill(&mut h); let v = vec![Hash::<32>::new(h), Hash::<32>::new([7; 32])]; self.cbor_value(&v) }
         }
     }
-    fn nonce_case(&mut self) {
+    fn nonce_case(&mut self, idx: usize) {
         self.reset();
         let nc = self.rng.bytes(32);
         let nh = self.rng.bytes(32);
-        let ee: Option<Vec<u8>> = match self.rng.below(4) {
+        // extra entropy: absent, every edge length (the empty string included), then random lengths
+        let ee: Option<Vec<u8>> = match idx % (EDGE_LENS.len() + 3) {
             0 => None,
-            1 => { let n = self.rng.below(70) as usize; Some(self.rng.bytes(n)) }
-            _ => Some(self.rng.bytes(32)),
+            k if k <= EDGE_LENS.len() => Some(self.rng.bytes(EDGE_LENS[k - 1])),
+            _ => { let n = self.rng.below(70) as usize; Some(self.rng.bytes(n)) }
         };
         let mut cat = nc.clone();
         cat.extend_from_slice(&nh);
@@ -280,8 +286,8 @@ pub fn trace(args: &Args) {
     let max = args.num("maxlen", 4096);
     let r = catch(|| {
         cx.kat_case();
-        for _ in 0..args.num("splits", 40) {
-            cx.split_case(max);
+        for i in 0..args.num("splits", 40) {
+            cx.split_case(max, i as usize);
         }
         for round in 0..args.num("tagrounds", 1) {
             for t in 0..=255u8 {
@@ -292,8 +298,8 @@ pub fn trace(args: &Args) {
         for _ in 0..args.num("cbors", 40) {
             cx.cbor_case();
         }
-        for _ in 0..args.num("nonces", 30) {
-            cx.nonce_case();
+        for i in 0..args.num("nonces", 30) {
+            cx.nonce_case(i as usize);
         }
         for _ in 0..args.num("values", 1) {
             cx.value_case_n::<20>();
